@@ -1,6 +1,116 @@
 import DaskModel.DriverLib
+import DaskModel.Model.TextBlocks
 open Dask
 
-def table : List (String × Handler) := []
+namespace BagDriver
+open Dask.TextBlocks
+
+def raised : SExp := .list [.sym "raised"]
+def okNatss (r : Option (List (List Nat))) : SExp :=
+  match r with
+  | some xs => .list [.sym "ok", SExp.ofNatss xs]
+  | none => raised
+
+def toOptNat? : SExp → Option (Option Nat)
+  | .sym "none" => some none
+  | .int i => if i ≥ 0 then some (some i.toNat) else none
+  | _ => none
+
+/-! ### C50 -/
+
+/-- `(plan size blocksize)` ↦ `(ok (offsets…) (lengths…))` | `(raised)` -/
+def hPlan : Handler := handler fun args =>
+  match args with
+  | [size, bs] => do
+    let size ← size.toNat?
+    let bs ← bs.toNat?
+    match plan ieee size bs with
+    | some (o, l) => pure (.list [.sym "ok", SExp.ofNats o, SExp.ofNats l])
+    | none => pure raised
+  | _ => none
+
+/-- `(round53 p q)` ↦ nat -/
+def hRound53 : Handler := handler fun args =>
+  match args with
+  | [p, q] => do
+    let p ← p.toNat?
+    let q ← q.toNat?
+    if q = 0 then none else pure (SExp.ofNat (round53 p q))
+  | _ => none
+
+def pairOut (r : Nat × Bool) : SExp := .list [SExp.ofNat r.1, SExp.ofBool r.2]
+
+/-- `(seek bsz (d…) (data…) pos)` ↦ `(pos found)` (chunked transliteration) -/
+def hSeek : Handler := handler fun args =>
+  match args with
+  | [bsz, d, data, pos] => do
+    pure (pairOut (seekChunked (← bsz.toNat?) (← d.toNats?) (← data.toNats?) (← pos.toNat?)))
+  | _ => none
+
+def hSeekSimple : Handler := handler fun args =>
+  match args with
+  | [d, data, pos] => do
+    pure (pairOut (seekSimple (← d.toNats?) (← data.toNats?) (← pos.toNat?)))
+  | _ => none
+
+/-- `(readblock (d…) (data…) off len|none)` ↦ bytes -/
+def hReadBlock : Handler := handler fun args =>
+  match args with
+  | [d, data, off, len] => do
+    pure (SExp.ofNats (readBlock (← data.toNats?) (← d.toNats?) (← off.toNat?) (← toOptNat? len)))
+  | _ => none
+
+def hReadBlockChunked : Handler := handler fun args =>
+  match args with
+  | [bsz, d, data, off, len] => do
+    pure (SExp.ofNats (readBlockChunked (← bsz.toNat?) (← data.toNats?) (← d.toNats?) (← off.toNat?) (← toOptNat? len)))
+  | _ => none
+
+/-- `(fileblocks (d…) (data…) bs|none)` ↦ `(ok (block…)…)` | `(raised)` -/
+def hFileBlocks : Handler := handler fun args =>
+  match args with
+  | [d, data, bs] => do
+    pure (okNatss (fileBlocks ieee (← data.toNats?) (← d.toNats?) (← toOptNat? bs)))
+  | _ => none
+
+def two (f : List Nat → List Nat → Option (List (List Nat))) : Handler := handler fun args =>
+  match args with
+  | [d, t] => do pure (okNatss (f (← d.toNats?) (← t.toNats?)))
+  | _ => none
+
+def hUniv : Handler := handler fun args =>
+  match args with
+  | [t] => do pure (okNatss (univLines (← t.toNats?)))
+  | _ => none
+
+/-- `(readtext (d…) (data…) bs|none)` -/
+def hReadText : Handler := handler fun args =>
+  match args with
+  | [d, data, bs] => do
+    pure (okNatss (readTextLines ieee (← d.toNats?) (← data.toNats?) (← toOptNat? bs)))
+  | _ => none
+
+/-- `(readtextuniv (data…) bs|none)` -/
+def hReadTextUniv : Handler := handler fun args =>
+  match args with
+  | [data, bs] => do
+    pure (okNatss (readTextUniv ieee (← data.toNats?) (← toOptNat? bs)))
+  | _ => none
+
+def hHasBorder : Handler := handler fun args =>
+  match args with
+  | [d] => do pure (SExp.ofBool (hasBorder (← d.toNats?)))
+  | _ => none
+
+def tableC50 : List (String × Handler) := [
+  ("plan", hPlan), ("round53", hRound53), ("seek", hSeek), ("seeksimple", hSeekSimple),
+  ("readblock", hReadBlock), ("readblockchunked", hReadBlockChunked), ("fileblocks", hFileBlocks),
+  ("pysplit", two pySplit), ("decode", two decode), ("ftb", two fileToBlocks),
+  ("ftborig", two fileToBlocksOrig), ("decodeorig", two decodeOrig), ("reflines", two refLines), ("univlines", hUniv),
+  ("readtext", hReadText), ("readtextuniv", hReadTextUniv), ("hasborder", hHasBorder)]
+
+end BagDriver
+
+def table : List (String × Handler) := BagDriver.tableC50
 
 def main : IO Unit := runDriver table
